@@ -26,6 +26,9 @@ func main() {
 	rng := prng.New(r.Seed)
 	per := r.N(10, 250)
 	for _, t := range wiregen.AllTypes {
+		for i := 0; i < r.N(6, 150); i++ {
+			seqCase(r, rng, t)
+		}
 		for i := 0; i < per; i++ {
 			fc := wiregen.GenFcall(rng, t, 9000)
 			if m, ok := fc.Message.(p9p.MessageTread); ok && i%3 == 0 {
@@ -53,6 +56,47 @@ func main() {
 			}
 		}
 	}
+}
+
+// seqCase writes several messages of one kind, of different sizes, on ONE channel: whatever a
+// channel remembers from an earlier message must not change what it does with the next one.
+func seqCase(r *rep.Report, rng *prng.R, t p9p.FcallType) {
+	k := rng.Range(2, 4)
+	fcs := make([]*p9p.Fcall, k)
+	sizes := make([]int, k)
+	for i := range fcs {
+		fcs[i] = wiregen.GenFcall(rng, t, 600)
+		ref, _ := wiregen.RefEncode(fcs[i])
+		sizes[i] = len(ref) + 4
+	}
+	msize := sizes[rng.Intn(k)] + rng.Range(-3, 3) // between the sizes of the sequence, so some fit and some do not
+	if msize < 24 {
+		msize = 24 + rng.Intn(8)
+	}
+	conn := lconn.NewScript(nil)
+	ch := p9p.NewChannel(conn, msize)
+	items := make([]sx.S, k)
+	obs := make([]sx.S, k)
+	for i, fc := range fcs {
+		items[i] = wiregen.FcallSexp(fc)
+		before := len(conn.Written)
+		err := ch.WriteFcall(context.Background(), cloneFcall(fc))
+		out := append([]byte{}, conn.Written[before:]...)
+		var res sx.S
+		switch {
+		case err == nil:
+			res = sx.L(sx.Sym("sent"))
+		case p9p.Overflow(err) > 0:
+			res = sx.L(sx.Sym("overflow"), sx.I(int64(p9p.Overflow(err))))
+		default:
+			res = sx.L(sx.Sym("other"))
+		}
+		obs[i] = sx.L(sx.B(out), res)
+		if len(out) > msize {
+			r.Fail("channel.WriteFcall."+t.String()+".exceeds-msize", fmt.Sprintf("message %d of a sequence on one channel went out as a frame of %d bytes with msize %d", i, len(out), msize), sx.L(sx.Sym("writeseq"), sx.I(int64(msize)), sx.List(items[:i+1])), nil)
+		}
+	}
+	r.Case(sx.L(sx.Sym("writeseq"), sx.I(int64(msize)), sx.List(items)), sx.List(obs), "writeseq", true)
 }
 
 func cloneFcall(fc *p9p.Fcall) *p9p.Fcall {
